@@ -29,6 +29,12 @@ def setup(J):
         for k in ((1, 2) if tier == "quick" else (0, 1, 2, 3)):
             for seps in ((",", "+"), (" ", ":")):
                 jobs.append(J.with_delay_fallback(J.wf("C18", "gjoin2", k, 1, 2, "cmd", oracles=o, tier=tier, events_dep=False, extra=seps[0] + "|" + seps[1], id=f"C18-two-ports-k{k}-sep{ord(seps[0])}-{ord(seps[1])}"), 1))
-        return {"level": "model_checking", "stages": [lambda ctx, prev: jobs, J.maporder_stage("C18", o, tier, graphs=("gjoin2",), per_job=True)],
-                "rule": "src(k files) -> StreamToSubStream -> {i:x|join:SEP[|modifier]} for k in 0..3 (4; i.e. beyond the buffer size 1-2), SEP in {' ', ',', ':'} and the longer separators {' -I ', ', ', '::'}, modifier in {none, basename, %.txt}; every Mazurkiewicz trace (the drain in NewTask races with the upstream still sending); plus a task with TWO joined in-ports fed by two sub-streams; plus members given with absolute paths; plus members arriving in reverse name order; plus the two-port scenarios again with every other order of each range-over-map site forced (the task's in-port / sub-stream maps); oracle: exactly one task, argument string at the exec seam = member paths in emission order joined by SEP, each member resolves from the task's working directory, audit Upstream key set = member paths, one terminal outcome",
+        # memory-level pass: the same scenario on the race-instrumented build, where assignments to struct fields are
+        # scheduling points too (the carrier IP's sub-stream field is set by one goroutine and read by another)
+        for k in (1, 2):
+            mj = J.wf("C18", "gjoin", k, 1, 2, "cmd", oracles=o, tier=tier, events_dep=False, extra=" ", race=True, id=f"C18-mem-gjoin-k{k}")
+            mj["no_race_report"] = True
+            jobs.append(J.with_delay_fallback(mj, 1))
+        return {"level": "model_checking", "race_too": True, "stages": [lambda ctx, prev: jobs, J.maporder_stage("C18", o, tier, graphs=("gjoin2",), per_job=True)],
+                "rule": "src(k files) -> StreamToSubStream -> {i:x|join:SEP[|modifier]} for k in 0..3 (4; i.e. beyond the buffer size 1-2), SEP in {' ', ',', ':'} and the longer separators {' -I ', ', ', '::'}, modifier in {none, basename, %.txt}; every Mazurkiewicz trace (the drain in NewTask races with the upstream still sending); plus a task with TWO joined in-ports fed by two sub-streams; plus members given with absolute paths; plus members arriving in reverse name order; plus a memory-level pass on the race-instrumented build (field assignments are scheduling points); plus the two-port scenarios again with every other order of each range-over-map site forced (the task's in-port / sub-stream maps); oracle: exactly one task, argument string at the exec seam = member paths in emission order joined by SEP, each member resolves from the task's working directory, audit Upstream key set = member paths, one terminal outcome",
                 "assumptions": J.BASE_ASSUMPTIONS}
